@@ -5,7 +5,8 @@
    instructions_minimal), Ms/DecodeModel.v (parse = decode.rs `decode`; decode_max =
    decode_with_validation_params(.., MAX)), Ms/CodecExt.v (script_size, pk_cost, hfv, gv),
    Ms/CodecSpec.v (ms_wf = the invariants of the Rust types; mtoks = expected tokens). *)
-From Verif Require Import DecodeModel CodecSpec SerProofs LexProofs EncProofs DecodeProofs DecodeEnc DecodeNf DecodeRefute.
+From Verif Require Import DecodeModel CodecSpec SerProofs LexProofs EncProofs DecodeProofs DecodeEnc DecodeNf DecodeRefute
+  DecodeSound LexCanon DecodeCanon.
 Local Open Scope N_scope.
 
 (* [T1] ser_parse: the byte-level parser inverts the serialiser on well-formed structured
@@ -112,11 +113,49 @@ Theorem C04_parse_dnf : forall e m, dnf KChain m = true -> dec_ok e m ->
 Proof. exact parse_dnf. Qed.
 Print Assumptions C04_parse_dnf.
 
-(* decode_canonical, the part that is TRUE on this tree: on the image of the encoder the decoder is
-   canonical (whatever it returns on encode m' re-encodes to exactly those bytes).  For arbitrary byte
-   strings the statement is false (next theorem); the variant "canonical up to the NUMEQUAL VERIFY
-   split" for arbitrary accepted byte strings is not proved (it needs the unparse invariant of the
-   stack machine) and is checked per run by the oracle. *)
+(* [T2] decode_canonical: EVERY byte string the decoder accepts is the encoding of the miniscript it
+   returns: the decoder never accepts a non-canonical script.  (True since /repo 22fc180a; before,
+   NUMEQUAL VERIFY was the counter-example, see the regression theorem below.)
+   Hypotheses: [is_bytes b] (all list elements < 256: the model's byte strings are lists of N);
+   [denv_ok e] = what Ctx::Key::from_slice and the Rust types guarantee about the abstract key table:
+   a decoded key serialises back to the bytes it was decoded from, x-only keys have 32 bytes and
+   ECDSA keys 33 or 65, hash160 has 20 bytes; [ksort_ok] = the BIP67 sort only permutes.
+   Proof: lexer canonicity (C04_lex_canonical) + parser soundness (C04_parse_sound: an "unparse"
+   invariant of the non-terminal/terminal stacks preserved by every machine step) + lex_enc. *)
+Theorem C04_decode_canonical : forall e b m,
+  denv_ok e -> ksort_ok (d_ke e) -> is_bytes b ->
+  decode_max e b = OOk m -> encode (d_ke e) m = b.
+Proof. exact decode_canonical. Qed.
+Print Assumptions C04_decode_canonical.
+
+(* the lexer is canonical: the bytes are a function ([unlex]) of the tokens, hence lex is injective *)
+Theorem C04_lex_canonical : forall b ts, is_bytes b -> lex b = LexOk ts -> unlex ts = b /\ Forall tokb ts.
+Proof. exact lex_canonical. Qed.
+Print Assumptions C04_lex_canonical.
+
+(* the parser is sound: whatever it accepts is (unread rest) ++ (the token list of its result), and
+   the result satisfies the invariants of the Rust types *)
+Theorem C04_parse_sound : forall e, denv_ok e -> forall ts m rest,
+  Forall tok_wf ts -> parse e ts = OOk (m, rest) ->
+  ts = rev rest ++ mtoks (d_ke e) m /\ ms_wf (cx e) (d_ke e) m.
+Proof. exact parse_sound. Qed.
+Print Assumptions C04_parse_sound.
+
+(* consequences: script_size of the result is the length of the accepted script; decoding is
+   injective on accepted scripts *)
+Theorem C04_decode_size : forall e b m,
+  denv_ok e -> ksort_ok (d_ke e) -> is_bytes b ->
+  decode_max e b = OOk m -> script_size (cx e) (d_ke e) m = blen b.
+Proof. exact decode_size. Qed.
+Print Assumptions C04_decode_size.
+Theorem C04_decode_injective : forall e b1 b2 m,
+  denv_ok e -> ksort_ok (d_ke e) -> is_bytes b1 -> is_bytes b2 ->
+  decode_max e b1 = OOk m -> decode_max e b2 = OOk m -> b1 = b2.
+Proof. exact decode_injective. Qed.
+Print Assumptions C04_decode_injective.
+
+(* the earlier partial statement (canonical on the image of the encoder; no hypothesis on the key
+   table beyond those of decode_enc) is kept *)
 Theorem C04_decode_canonical_partial : forall e m' t,
   ksort_ok (d_ke e) -> ms_wf (d_ctx e) (d_ke e) m' ->
   type_of m' = ROk t -> c_base (t_corr t) <> BW ->
@@ -125,17 +164,15 @@ Theorem C04_decode_canonical_partial : forall e m' t,
 Proof. exact decode_canonical_on_encodings. Qed.
 Print Assumptions C04_decode_canonical_partial.
 
-(* decode_canonical — FULL statement, FALSE on the present tree:
-     forall e b m, decode_max e b = OOk m -> encode (d_ke e) m = b.
-   Refuted by the model (witness: and_v(v:multi_a(1,A,B),pk(A)) with 9d replaced by 9c 69);
-   the same witness class is re-found on the implementation by every run of the check. *)
-Theorem C04_decode_canonical_refuted :
-  exists (e : denv) (b : bytes) (m : ms),
-    (forall k, k < 2 -> d_key e (kb (d_ke e) k) = Some k) /\
-    decode_max e b = OOk m /\ encode (d_ke e) m <> b /\
-    decode_max e (encode (d_ke e) m) = OOk m.
-Proof. exact decode_canonical_refuted_lemma. Qed.
-Print Assumptions C04_decode_canonical_refuted.
+(* The former refutation of decode_canonical (until /repo 22fc180a: NUMEQUAL VERIFY lexed like
+   NUMEQUALVERIFY) is now a regression example: the split script is refused by the lexer, the
+   canonical one decodes. *)
+Theorem C04_numequal_split_rejected :
+  (forall k, k < 2 -> d_key wit_env (kb (d_ke wit_env) k) = Some k) /\
+  decode_max wit_env wit_bytes = OErr (DeLex LeNonMinimalVerify) /\
+  decode_max wit_env (encode wit_ke wit_ms) = OOk wit_ms /\ encode wit_ke wit_ms <> wit_bytes.
+Proof. exact numequal_split_rejected_lemma. Qed.
+Print Assumptions C04_numequal_split_rejected.
 
 (* non-vacuity: the hypotheses of the theorems above are satisfiable (the witness is well formed) *)
 Example C04_hypotheses_satisfiable : ms_wf Tap wit_ke wit_ms /\ ksort_ok wit_ke.
@@ -150,3 +187,8 @@ Example C04_decode_enc_nontrivial :
   lim_ok wit_env (nf wit_ke wit_ms2) /\ gv Tap wit_ke (nf wit_ke wit_ms2) = None /\
   nf wit_ke wit_ms2 <> wit_ms2.
 Proof. exact wit2_ok. Qed.
+(* the hypotheses of decode_canonical are satisfiable and its premise is met by a real script *)
+Example C04_decode_canonical_hypotheses_satisfiable :
+  denv_ok wit_env /\ ksort_ok (d_ke wit_env) /\ is_bytes (encode wit_ke wit_ms) /\
+  decode_max wit_env (encode wit_ke wit_ms) = OOk wit_ms.
+Proof. exact wit_denv_ok. Qed.
